@@ -361,7 +361,13 @@ def _stored():
     for d in sorted(os.listdir(sd)) if os.path.isdir(sd) else []:
         pf = os.path.join(sd, d, 'patch.diff')
         if os.path.isfile(pf):
-            M.append(dict(prop=d.split('-')[0], id=f'seed:{d}', patch=pf, rule=None))
+            e = dict(prop=d.split('-')[0], id=f'seed:{d}', patch=pf, rule=None)
+            mp = os.path.join(sd, d, 'meta.json')
+            if os.path.isfile(mp):
+                meta = json.load(open(mp))
+                if not meta.get('caught_by_own_check') and e['prop'] in meta.get('analysis_error_in', []):
+                    e['undecided'] = True      # recorded as "not decided by the (partial) check": exit 2 is the expected answer
+            M.append(e)
     rd = os.path.join(verif, 'refactorings')
     st = {}
     if os.path.isfile(os.path.join(rd, 'STATUS.json')):
